@@ -321,7 +321,7 @@ func (w *c11World) do(kind string) (desc string) {
 }
 
 // cacheState is what the property compares: devices with definitions, and files in error.
-func cacheState(c *cdi.Cache, dirs []string) (string, map[string]any) {
+func cacheState(c *cdi.Cache, dirs []string, opts ...string) (string, map[string]any) {
 	devs := map[string]string{}
 	listings := map[string]string{}
 	// which query is asked first changes from call to call (each of them brings the
@@ -350,21 +350,34 @@ func cacheState(c *cdi.Cache, dirs []string) (string, map[string]any) {
 			}
 		},
 	}
-	turn := int(queryTurn.Add(1))
-	for k := range groups {
-		groups[(turn+k)%len(groups)]()
-	}
 	isDir := map[string]bool{}
 	for _, d := range dirs {
 		isDir[filepath.Clean(d)] = true
 	}
 	var errs []string
-	for k := range c.GetErrors() {
-		if !isDir[k] {
-			errs = append(errs, k)
+	// (the error report takes its turn at being asked first too: a client may poll it alone)
+	groups = append(groups, func() {
+		for k := range c.GetErrors() {
+			if !isDir[k] {
+				errs = append(errs, k)
+			}
+		}
+		sort.Strings(errs)
+	})
+	turn := int(queryTurn.Add(1))
+	if len(opts) > 0 && opts[0] == "errors-last" {
+		// (a cache without watcher is brought up to date by its queries; the error report,
+		// which is no query, reads what the last of them found)
+		n := len(groups) - 1
+		for k := 0; k < n; k++ {
+			groups[(turn+k)%n]()
+		}
+		groups[n]()
+	} else {
+		for k := range groups {
+			groups[(turn+k)%len(groups)]()
 		}
 	}
-	sort.Strings(errs)
 	// injection of everything that resolves
 	var names []string
 	for q := range devs {
@@ -427,7 +440,7 @@ func checkC11(c *Ctx) {
 			want, _ := cacheState(fresh, all)
 			// (no watcher, nothing asynchronous: every query looks at the directories itself,
 			// whichever query comes first, so one round of queries has to be right)
-			got, _ := cacheState(cache, all)
+			got, _ := cacheState(cache, all, "errors-last")
 			c.Count("changes_seen_through_a_watcherless_cache", 1)
 			if got != want {
 				cs.Violation("no-convergence", map[string]string{"last_op": "watcherless", "observed": "queries"}, fmt.Sprintf("an auto-refresh cache that never got a watcher (created while the process could not open a descriptor) does not answer from the directory contents after: %s\n cache %s\n fresh %s", d, clip(got, 1200), clip(want, 1200)), map[string]any{"history": history, "spec_dir_errors": fmt.Sprint(cache.GetSpecDirErrors())})
@@ -570,8 +583,10 @@ func checkC11(c *Ctx) {
 				cs.Violation("no-convergence", map[string]string{"last_op": "initial"}, fmt.Sprintf("vendor.com/gpu=dev0 is defined in both directories and does not resolve to the higher-priority one (errors %v)", a.C.GetErrors()), nil)
 				return
 			}
-			how := pickStr(r, "unlink", "unlink", "rename-away", "rename-to-non-spec", "truncate")
+			how := pickStr(r, "unlink", "unlink", "rename-away", "rename-to-non-spec", "truncate", "rename-directory-away", "rename-directory-away")
 			switch how {
+			case "rename-directory-away":
+				must(os.Rename(high, filepath.Join(root, "elsewhere", "high-gone")))
 			case "unlink":
 				must(os.Remove(hf))
 			case "rename-away":
@@ -814,6 +829,44 @@ func checkC11(c *Ctx) {
 		// bounded progress: at most two rounds of queries
 		fresh, _ := cdi.NewCache(cdi.WithSpecDirs(all...), cdi.WithAutoRefresh(false))
 		want, wantM := cacheState(fresh, all)
+		// some clients only ever read the error report: with nothing but file-level changes
+		// in the history (every directory stayed watched) the watcher alone keeps it current
+		dirLevel := false
+		for _, k := range kinds {
+			if strings.Contains(k, "dir") {
+				dirLevel = true
+			}
+		}
+		if !dirLevel && !reconfigured && chance(r, 35) {
+			wantErrs := fmt.Sprint(wantM["files_in_error"])
+			isDir := map[string]bool{}
+			for _, d := range all {
+				isDir[filepath.Clean(d)] = true
+			}
+			errKeys := func() string {
+				var ks []string
+				for k := range a.C.GetErrors() {
+					if !isDir[k] {
+						ks = append(ks, k)
+					}
+				}
+				sort.Strings(ks)
+				return fmt.Sprint(ks)
+			}
+			gotErrs := errKeys()
+			if gotErrs != wantErrs {
+				if !a.Quiesce() {
+					c.Inconclusive("quiesce-timeout")
+					return
+				}
+				gotErrs = errKeys()
+			}
+			c.Count("histories_observed_through_the_error_report_alone", 1)
+			if gotErrs != wantErrs {
+				cs.Violation("no-convergence", map[string]string{"last_op": kinds[len(kinds)-1], "observed": "GetErrors alone"}, fmt.Sprintf("after the history ended and the watcher drained, GetErrors() - and nothing else - asked twice still names other files in error than a fresh cache (last change: %s)\n cache %s\n fresh %s", history[len(history)-1], gotErrs, wantErrs), map[string]any{"history": history, "events": a.EventTrace()})
+				return
+			}
+		}
 		if chance(r, 50) {
 			// some users only ever inject: the same bounded progress through InjectDevices alone
 			var names []string
